@@ -6,7 +6,7 @@ patch=$1; id=$2; shift 2
 cd /repo || exit 9
 git apply --check "$patch" || { echo "PATCH DOES NOT APPLY"; exit 9; }
 git apply "$patch"
-cd /verif && ./check $id "$@" > /tmp/seed-$id.out 2>&1; rc=$?
+cd /verif && VERIF_EVIDENCE_DIR=/var/tmp/shuttle-verif/seed-evidence ./check $id "$@" > /tmp/seed-$id.out 2>&1; rc=$?
 cd /repo && git apply -R "$patch"
 echo "rc=$rc"; grep -E "VIOLATION|KNOWN-FINDING|INCONCLUSIVE" /tmp/seed-$id.out | cut -c1-300
 grep -E "^\[$id\] .*: (pass|fail|inconclusive)" /tmp/seed-$id.out | cut -c1-200
